@@ -414,7 +414,7 @@ func enumNetCases(thorough bool, yield func(netCase) bool) {
 	}
 	for _, topo := range netTopos {
 		full := netOptions(topo.devices, fullSizes, 1)
-		red := netOptions(topo.devices, redSizes, 0)
+		red := netOptions(topo.devices, redSizes, 1)
 		for _, flit := range []int{8, 64} {
 			for _, knob := range topo.knobs {
 				for _, stall := range []bool{false, true} {
@@ -447,7 +447,7 @@ func init() {
 		Level: "exploration",
 		Rule: "every (topology, flit size, knob, drain mode, message multiset): 15 topologies built with the real connectors — mesh {1x2, 3x1, 2x2, 2x2x2} with 2..3 device tiles, PCIe trees {root+switch+1 device, root+switch+2 devices, root+switch+switch, root+2 switches} with the CPU on the root, NVLink/PCIe hybrids {1 accelerator, 2 accelerators without and with an NVLink}, generic {line3, star4, ring3, ring4}; flit size {8,64}; " +
 			"knob {1,2} = switch latency (mesh: also transfers per cycle; generic: also channels and buffer sizes; hybrid: also NVLink latency/width), mesh additionally with the builder defaults; devices drain one cycle after each arrival, or not before cycle 60; " +
-			"messages = every multiset of <= 2 (thorough <= 3) messages over (ordered device pair, TrafficBytes in {0,1,64,100}, send tick in {0,1}) plus every multiset of 3 (thorough 4) over (ordered device pair, TrafficBytes in {0,100}, send tick 0), sent in canonical order; the real network is run on the real serial engine until idle (or an event budget); " +
+			"messages = every multiset of <= 2 (thorough <= 3) messages over (ordered device pair, TrafficBytes in {0,1,64,100}, send tick in {0,1}) plus every multiset of 3 (thorough 4) over (ordered device pair, TrafficBytes in {0,100}, send tick in {0,1}), sent in canonical order; the real network is run on the real serial engine until idle (or an event budget); " +
 			"hooks on the device ports give the ledger: every delivery must be a sent message, at its Dst port, with identical MsgMeta, at most once; in mesh/tree topologies every message must be delivered and the network must go idle. Each tuple is a distinct case.",
 		Sharded:     true,
 		MinOutcomes: 30,
@@ -455,7 +455,7 @@ func init() {
 			"devices are played by the harness (one port owner, sends and drains are events on the same engine); one port per device, incoming capacity 1, outgoing capacity 4",
 			"liveness is demanded only for mesh and tree topologies (incl. the hybrid without NVLink); for rings and NVLink hybrids only at-most-once, right place, intact metadata",
 			"ideal links only (the connectors refuse non-ideal links); Ethernet links of the NVLink connector are therefore not covered",
-			"message sets of the largest size use TrafficBytes {0,100} and send tick 0 only (bound stated in the rule)",
+			"message sets of the largest size use TrafficBytes {0,100} only (bound stated in the rule)",
 		},
 		Run: func(c *lib.Ctx) {
 			debug.SetGCPercent(800) // every case builds and drops a whole network; collect less often
